@@ -27,8 +27,8 @@ ASSUMPTIONS = ["images live on a dyadic lattice (multiples of 2^-10, offsets/sca
 
 SHAPES_Q = [(40, 32), (57, 23)]
 SHAPES_T = [(40, 32), (57, 23), (96, 64)]
-ARCH = ["constant", "noise", "gradient", "nanblock", "nanborder"]
-TRANSFORMS = [("shift", 1024.0), ("scale", -1.0), ("scale", -2.0), ("scale", 0.5)]
+ARCH = ["constant", "noise", "gradient", "nanblock", "nanborder", "sources"]
+TRANSFORMS = [("shift", 1024.0), ("scale", -1.0), ("scale", -2.0), ("scale", 0.5), ("scale", 2.0 ** -24), ("scale", 2.0 ** -34)]
 
 
 def axes(tier, seed):
@@ -66,6 +66,12 @@ def make(arch, shape, real=0):
     img = noise.copy()
     if arch == "gradient":
         img += np.round((0.05 * np.arange(rows)[:, None] + 0.03 * np.arange(cols)[None, :]) * 1024) / 1024.0
+    if arch == "sources":
+        # bright compact sources: sigma clipping needs several rounds in the boxes that contain them
+        rr, cc = np.mgrid[0:rows, 0:cols]
+        for k in range(6):
+            r0, c0 = (7 + 11 * k) % rows, (5 + 17 * k) % cols
+            img += np.round(40.0 * np.exp(-((rr - r0) ** 2 + (cc - c0) ** 2) / 4.5) * 1024) / 1024.0
     if arch == "nanblock":
         img[rows // 3: rows // 3 + 5, cols // 4: cols // 4 + 6] = np.nan
         img[rows - 2, 1] = np.inf
@@ -186,8 +192,9 @@ def ev_contract(case, ctx):
                 eb, er = bkg.astype(np.float64) + val, rms.astype(np.float64)
             else:
                 eb, er = bkg.astype(np.float64) * val, rms.astype(np.float64) * abs(val)
-            okb, wb = close32(b2, eb, 1.0)
-            okr, wr = close32(r2m, er, 1.0)
+            ns = 1.0 if kind == "shift" else abs(val)       # noise level of the transformed image
+            okb, wb = close32(b2, eb, ns)
+            okr, wr = close32(r2m, er, ns)
             ctx.note_max("metamorphic_err_over_tol", max(wb if np.isfinite(wb) else 0, wr if np.isfinite(wr) else 0))
             if not okb:
                 dd = np.nanmax(np.abs(b2.astype(np.float64) - eb)) if b2.shape == eb.shape else np.inf
